@@ -944,7 +944,8 @@ pub fn drive_automata(a: &Args) {
         if id % 40 == 0 {
             mgr = ReManager::new();
         }
-        if id % a.sz(2, 1) != 0 {
+        // quick tier: every term for C14 (prune / tables of compiled, minimized automata), every second one for C04
+        if id % a.sz(2, 1) != 0 && !want_c14 {
             continue;
         }
         let r = guarded(|| {
